@@ -4,7 +4,7 @@ set -e
 cd "$(dirname "$0")"
 /venv/bin/python tools/extract.py || true     # regenerate lean/ICal/Gen from /repo (a failure is reported by the checks)
 cd lean
-TARGETS=$(ls ICal/Props/*.lean | sed 's#/#.#g; s#\.lean$##')
+TARGETS=$(/venv/bin/python -c "import json; print(' '.join('ICal.Props.'+c['property_id'] for c in json.load(open('../MANIFEST.json'))['checks']))")
 flock .build.lock lake build $TARGETS icalmodel 2>&1 | tail -5
 test -x .lake/build/bin/icalmodel
 cd ..
